@@ -8,6 +8,7 @@ TARGETS = ['selfies/bond_constraints.py::set_semantic_constraints',
            'selfies/mol_graph.py::MolecularGraph.get_bond_count',
            'selfies/mol_graph.py::MolecularGraph.get_atoms',
            'selfies/utils/smiles_utils.py::atom_to_smiles']
+ASSUMPTIONS = ['constraint-table values of type bool (True/False pass isinstance(value, int)) are not modelled; keys of the table passed to set_semantic_constraints are assumed to be str', 'lru_cache is modelled by a per-function memo flag (stale after a write of _current_constraints, clean after cache_clear()); the dict iteration order is abstract (ghost key vector enumerating exactly the present keys)']
 EXPLANATION = (
     "BOUNDED stand-in (runtime property contract on the public encoder; not counted as proved) plus every deductive "
     "clause listed in coverage.clauses: for 8 constraint tables switched between calls inside one process (stale-memo "
